@@ -27,6 +27,10 @@ func selftest(args []string) int {
 	// their property counts (their meta.json names the obligation that was seen to fail)
 	seeds, _ := filepath.Glob(filepath.Join(verifDir, "seeded", "*", "patch.diff"))
 	files = append(files, seeds...)
+	// and the other direction: edits that keep the property (reformatting, equivalent conditions,
+	// new or renamed locals no contract names, reordered independent statements) must stay quiet
+	harmless, _ := filepath.Glob(filepath.Join(verifDir, "selftest", "harmless", "*.patch"))
+	files = append(files, harmless...)
 	sort.Strings(files)
 	self, _ := os.Executable()
 	type result struct {
@@ -95,6 +99,11 @@ func selftest(args []string) int {
 			code := cmd.ProcessState.ExitCode()
 			txt := out.String()
 			ok := code == 1 && strings.Contains(txt, "VIOLATION property="+h["property"])
+			if filepath.Base(filepath.Dir(f)) == "harmless" {
+				ok = code == 0 && !strings.Contains(txt, "VIOLATION")
+				h["expect"] = ""
+				name = "harmless/" + name
+			}
 			msg := ""
 			for _, exp := range strings.Split(h["expect"], "|") {
 				exp = strings.TrimSpace(exp)
@@ -122,7 +131,7 @@ func selftest(args []string) int {
 			bad++
 		}
 	}
-	fmt.Printf("selftest: %d mutants, %d not detected\n", len(results), bad)
+	fmt.Printf("selftest: %d changes, %d with the wrong outcome\n", len(results), bad)
 	if bad > 0 {
 		return 2
 	}
